@@ -12,6 +12,11 @@ NAMED_ENTRIES = [
     "cdd.compound.sync_properties:sync_properties",
     "cdd.compound.gen:gen",
     "cdd.shared.docstring_parsers:parse_docstring",
+    # the route generators PARSE a model file / a routes file (SQLAlchemy parser, bottle route parser): "parsing ... treats
+    # its input as data" applies to them as to every other parser
+    "cdd.compound.openapi.gen_routes:gen_routes",
+    "cdd.compound.openapi.gen_routes:upsert_routes",
+    "cdd.compound.openapi.gen_openapi:openapi_bulk",
 ]
 
 EVAL_SITE = "EXEC@cdd.shared.docstring_parsers:__set_name_and_type_handle_doc_in_param:eval#0"
@@ -57,6 +62,19 @@ ALLOWED_PER_ENTRY = {
         "FS_WRITE@cdd.sqlalchemy.utils.emit_utils:update_fk_for_file:.write#0": "gen --phase 2 updates the named output file",
     },
 }
+
+_FIND_SPEC = "IMPORT_PARENT@cdd.shared.pure_utils:filename_from_mod_or_filename:importlib.util.find_spec#0"
+_FIND_SPEC_WHY = ("a module NAME instead of a file, by design; never for an existing file or a path "
+                  "(obligation C17/filename_from_mod_or_filename/find_spec-only-for-a-name-that-is-no-file)")
+ALLOWED_PER_ENTRY["cdd.compound.openapi.gen_routes:gen_routes"] = {_FIND_SPEC: _FIND_SPEC_WHY}
+ALLOWED_PER_ENTRY["cdd.compound.openapi.gen_routes:upsert_routes"] = {
+    _FIND_SPEC: _FIND_SPEC_WHY,
+    "FS_WRITE@cdd.compound.openapi.gen_routes:upsert_routes:open#0": "the explicitly named routes file",
+    "FS_WRITE@cdd.compound.openapi.gen_routes:upsert_routes:.write#0": "the explicitly named routes file",
+    "FS_WRITE@cdd.compound.openapi.gen_routes:upsert_routes:open#1": "the explicitly named routes file (append of the missing routes)",
+    "FS_WRITE@cdd.compound.openapi.gen_routes:upsert_routes:.write#1": "the explicitly named routes file (append of the missing routes)",
+}
+ALLOWED_PER_ENTRY["cdd.compound.openapi.gen_openapi:openapi_bulk"] = {}
 
 # sync_properties: the eval/compile of the input module is reachable only with input_eval true
 FLAG_ENTRY = ("cdd.compound.sync_properties:sync_properties", "input_eval", False)
